@@ -69,9 +69,9 @@ def _run_demo(wt, sid, orig_dir_hint=None):
 	src = open(os.path.join(SEEDED, sid, 'demo.py')).read()
 	# demos were written inside /tmp/gw-<PROP>; point them at the verification worktree
 	prop = sid.split('-')[0]
-	src = src.replace(f'/tmp/gw-{prop}', wt).replace(f'/tmp/gw2-{prop}', wt).replace(f'/tmp/gw3-{prop}', wt)
+	src = src.replace(f'/tmp/gw4-r4{prop}', wt).replace(f'/tmp/gw-{prop}', wt).replace(f'/tmp/gw2-{prop}', wt).replace(f'/tmp/gw3-{prop}', wt)
 	# data files the sub-agent created next to the test data (untracked in its worktree)
-	n = int(sid.split('-')[1]); agent = f'/tmp/gw3-{prop}' if n > 6 else (f'/tmp/gw2-{prop}' if n > 3 else f'/tmp/gw-{prop}')
+	n = int(sid.split('-')[1]); agent = f'/tmp/gw4-r4{prop}' if n > 9 else f'/tmp/gw3-{prop}' if n > 6 else (f'/tmp/gw2-{prop}' if n > 3 else f'/tmp/gw-{prop}')
 	if os.path.isdir(agent):
 		others = sh(['git', '-C', agent, 'ls-files', '--others', '--exclude-standard', 'tests']).stdout.split('\n')
 		for rel in others:
